@@ -226,7 +226,7 @@ def style_step(hist):
 
 # ----------------------------------------------------------------------- css
 CSS_NAMES = ["font_size", "backgroundColor", "margin_TOP", "x", "X", "fontSize"]
-CSS_VALUES = ["1px", 3, None, "", "Red #FFF", 0, 0.0, 1, 1.0, True, "url(data:image/png;base64,AA;b)"]
+CSS_VALUES = ["1px", 3, None, "", "Red #FFF", 0, ["H", "red blue"], 0.0, 1, 1.0, True, "url(data:image/png;base64,AA;b)"]
 
 
 def ref_css_name(k):
@@ -255,9 +255,10 @@ def fn_css(case):
     from htmltools import Tag, css
     names, vals, sep = case
     viols = []
-    kw = dict(zip(names, vals))
+    kw = dict(zip(names, [bv(v) for v in vals]))     # ["H", text] -> HTML(text): its text, like any string
     got = css(collapse_=sep, **kw) if sep != "" else css(**kw)
-    exp = "".join(ref_css_name(n) + ":" + str(v) + ";" + sep for n, v in zip(names, vals) if v is not None)
+    exp = "".join(ref_css_name(n) + ":" + (v[1] if isinstance(v, list) else str(v)) + ";" + sep
+                  for n, v in zip(names, vals) if v is not None)
     exp = exp if exp != "" else None
     if got != exp:
         viols.append(("css:output", f"css({kw!r}, collapse_={sep!r})", {"observed": got, "expected": exp}))
